@@ -120,7 +120,7 @@ def run_cli(name, cmd, path, timeout):
         return name, "unknown", time.time() - t0, "timeout"
 
 
-def discharge(o, quick_ms=4000, cli_timeout=20, outdir=None, extra_rules=(), rounds=3, want_model=True, fuel=1):
+def discharge(o, quick_ms=4000, cli_timeout=20, outdir=None, extra_rules=(), rounds=3, want_model=True, fuel=1, nla=True):
     t0 = time.time()
     if getattr(o, "inline", None):
         return Status(o, "discharged", o.inline, getattr(o, "inline_secs", 0.0), detail={"axioms": []})
@@ -130,7 +130,7 @@ def discharge(o, quick_ms=4000, cli_timeout=20, outdir=None, extra_rules=(), rou
     hyps, neg, ax = build_query(o, rounds=rounds, extra_rules=extra_rules, fuel=fuel)
     from .seqabs import AbsSolver
     try:
-        a = AbsSolver(quick_ms)
+        a = AbsSolver(quick_ms, nla=nla)
         for h in hyps:
             a.add(h)
         r = a.check_with(neg)
